@@ -241,6 +241,7 @@ func c01(c *Ctx) (*report.Result, error) {
 	}
 	if f := resolve(c, res, "O1.4", anchor{"proxy", "*proxyStreamReceiver", "recvReplicationMessages"}); f != nil {
 		checkWatermarkBroadcast(c, res, f)
+		checkEveryWatermarkBroadcast(c, res, f, "O1.4")
 	}
 	res.Explanation = "SSA of proxyStreamReceiver.sendAck (reduction classification of the aggregation loop over ackByTarget: accumulator phi, comparison normalised to MIN/MAX, absence of any filtering condition), proxyIDRingBuffer.AggregateUpTo (MAX per source, hole skip), proxyStreamSender.recvAck (identity of the count passed to Discard with the count returned by AggregateUpTo, must-pass-through of the completed forwarding loop, decrement only on a true delivery) and the watermark-only branch of recvReplicationMessages (ranges over the complete channel table of the target cluster and all remote shards). These are necessary shapes of 'never acknowledge an unconfirmed task'; the behavioural statement over all interleavings of target acknowledgements is not decided (see DESIGN.md section 7, including the observation that a target that has not reported yet does not constrain the minimum)."
 	res.Assumptions = []string{"values are only compared and copied in these loops, so the MIN/MAX classification is exact"}
@@ -384,7 +385,9 @@ func checkAggregateMax(c *Ctx, res *report.Result, f *ssa.Function) {
 
 func checkRecvAckDiscard(c *Ctx, res *report.Result, f *ssa.Function) {
 	rule := "O1.3"
-	agg := flow.FindCalls(f, func(cc *ssa.CallCommon) bool { return flow.IsCallTo(cc, proxyPkg, "proxyIDRingBuffer", "AggregateUpTo") })
+	agg := flow.FindCalls(f, func(cc *ssa.CallCommon) bool {
+		return flow.IsCallTo(cc, proxyPkg, "proxyIDRingBuffer", "AggregateUpTo")
+	})
 	dis := flow.FindCalls(f, func(cc *ssa.CallCommon) bool { return flow.IsCallTo(cc, proxyPkg, "proxyIDRingBuffer", "Discard") })
 	if len(agg) != 1 || len(dis) != 1 {
 		res.Undec(rule, "recvAck: AggregateUpTo / Discard calls", fnPos(c.Prog, f), fmt.Sprintf("%d / %d calls", len(agg), len(dis)))
@@ -537,6 +540,10 @@ func c03(c *Ctx) (*report.Result, error) {
 	res.RuleDoc["O3.2"] = "bounded: on every path to that Send the value is clamped to the source's last exclusive high watermark when one is known"
 	res.RuleDoc["O3.3"] = "lastSentMin is assigned the value that was sent, after a successful Send, and nowhere else except the per-incarnation reset"
 	res.RuleDoc["O3.4"] = "the keep-alive re-sends only the stored last ack object, which is only ever the request that was last sent"
+	res.RuleDoc["O3.5"] = "retry by repetition: every watermark-only batch received is fanned out again (no path from the empty-batch test to the next Recv skips the local or the remote broadcast): the per-target hand-off is a non-blocking send that may drop, so the source's periodic repeat is the only retry"
+	if g := resolve(c, res, "O3.5", anchor{"proxy", "*proxyStreamReceiver", "recvReplicationMessages"}); g != nil {
+		checkEveryWatermarkBroadcast(c, res, g, "O3.5")
+	}
 	f := resolve(c, res, "O3.1", anchor{"proxy", "*proxyStreamReceiver", "sendAck"})
 	if f == nil {
 		return res, nil
@@ -769,5 +776,52 @@ func checkNoWriteAfterHandover(c *Ctx, res *report.Result, rule string, f *ssa.F
 			res.Check(bad == "", rule, fmt.Sprintf("%s: %s #%d is a fresh object per delivery", shortFn(g), what, n), instrPos(c.Prog, call), "no store into the handed-over object graph is reachable after the hand-over without re-allocating it",
 				"the receiver goroutine dequeues the value later and reads through the shared pointer: "+bad+" - it can observe another delivery's value")
 		}
+	}
+}
+
+// checkEveryWatermarkBroadcast: from the true side of `len(ReplicationTasks) == 0`, every path that reaches the
+// next Recv passes the range over the local channel table and the remote shard query. A path that skips
+// them (deduplicating "unchanged" watermarks, rate limiting, ...) removes the only retry of a dropped
+// non-blocking hand-off.
+func checkEveryWatermarkBroadcast(c *Ctx, res *report.Result, f *ssa.Function, rule string) {
+	var start *ssa.BasicBlock
+	for _, b := range f.Blocks {
+		iff := lastIfOf(b)
+		if iff == nil {
+			continue
+		}
+		bo, ok := iff.Cond.(*ssa.BinOp)
+		if !ok || bo.Op != token.EQL {
+			continue
+		}
+		if n, isN := flow.ConstInt(bo.Y); !isN || n != 0 {
+			continue
+		}
+		lc, isC := bo.X.(*ssa.Call)
+		if !isC {
+			continue
+		}
+		if bi, isB := lc.Call.Value.(*ssa.Builtin); !isB || bi.Name() != "len" {
+			continue
+		}
+		if p, _ := flow.FieldPath(lc.Call.Args[0]); strings.HasSuffix(p, "ReplicationTasks") {
+			start = b.Succs[0]
+		}
+	}
+	if start == nil {
+		res.Undec(rule, "recvReplicationMessages: watermark-only branch", fnPos(c.Prog, f), "the `len(ReplicationTasks) == 0` test was not found")
+		return
+	}
+	isRecv := func(ins ssa.Instruction) bool {
+		call, ok := ins.(ssa.CallInstruction)
+		return ok && call.Common().IsInvoke() && call.Common().Method.Name() == "Recv"
+	}
+	for _, spec := range []struct{ what, method string }{{"local streams", "GetRemoteSendChansByCluster"}, {"remote shards", "GetRemoteShardsForPeer"}} {
+		through := func(ins ssa.Instruction) bool {
+			call, ok := ins.(ssa.CallInstruction)
+			return ok && call.Common().IsInvoke() && call.Common().Method.Name() == spec.method
+		}
+		r := flow.FindPath(flow.Point{Block: start}, isRecv, through, nil)
+		res.Check(!r.Found, rule, "recvReplicationMessages: every watermark-only batch is broadcast to the "+spec.what, c.Prog.Pos(start.Instrs[0].Pos()), "no path from the empty-batch test to the next Recv skips "+spec.method, "a watermark-only batch can be consumed without being offered to the "+spec.what+" (path "+flow.BlockPath(r.Via)+"): a hand-off dropped earlier (queue full) is then never repeated and the aggregated ack stalls below the final watermark")
 	}
 }
